@@ -411,6 +411,200 @@ def integral_times(obs):
     return all(float(x) == int(x) for p in obs["pres"] for x in (p[0], p[1], p[3]))
 
 
+# ----------------------------------------------------------------------------- translator: run_sim -> Gen/RunLoopShape.lean
+
+_WORLD_CALLS = {
+    "wntr.sim.hydraulics.update_tank_heads(self._wn)": "updateTankHeads",
+    "self._run_feasibility_controls()": "runFeasibilityControls",
+    "self._update_internal_graph()": "updateInternalGraph",
+    "(num_isolated_junctions, num_isolated_links) = self._get_isolated_junctions_and_links()": "getIsolated",
+    "wntr.sim.hydraulics.update_model_for_controls(self._model, self._wn, self._model_updater, self._change_tracker)": "updateModelForControls",
+    "wntr.sim.models.param.source_head_param(self._model, self._wn)": "sourceHeadParam",
+    "wntr.sim.models.param.expected_demand_param(self._model, self._wn)": "expectedDemandParam",
+    "wntr.sim.hydraulics.store_results_in_network(self._wn, self._model)": "storeResultsInNetwork",
+}
+_ACTS = {
+    "trial = 0": "resetTrial",
+    "self._compute_next_timestep_and_run_presolve_controls_and_rules(first_step)": "presolve",
+    "(solver_status, mesg, iter_count) = _solver_helper(self._model, self._solver, self._solver_options)": "solvePrimary",
+    "(solver_status, mesg, iter_count) = _solver_helper(self._model, self._backup_solver, self._backup_solver_options)": "solveBackup",
+    "self._run_postsolve_controls()": "runPostsolve",
+    "resolve = True": "(.setResolve true)",
+    "resolve = False": "(.setResolve false)",
+    "trial += 1": "incTrial",
+    "results.error_code = wntr.sim.results.ResultsStatus.error": "setError",
+    "wntr.sim.hydraulics.save_results(self._wn, node_res, link_res)": "save",
+    "results.time.append(int(self._wn.sim_time))": "appendTime",
+    "wntr.sim.hydraulics.update_network_previous_values(self._wn)": "updatePrev",
+    "first_step = False": "clearFirst",
+}
+_ADVANCE = ["self._wn.sim_time += self._hydraulic_timestep",
+            "overstep = float(self._wn.sim_time) % self._hydraulic_timestep",
+            "self._wn.sim_time -= overstep"]
+_CONDS = {
+    "not resolve": "notResolve",
+    "not first_step": "notFirst",
+    "not first_step and not resolve": "notFirstAndNotResolve",
+    "solver_status == 0 and self._backup_solver is not None": "failedAndBackup",
+    "solver_status == 0": "failed",
+    "self._convergence_error": "convErrAttr",
+    "convergence_error": "convErrParam",
+    "self._change_tracker.changes_made(ref_point='graph')": "changed",
+    "trial > max_trials": "trialGtMax",
+    "isinstance(self._report_timestep, (float, int))": "reportNumeric",
+    "self._report_timestep.upper() == 'ALL'": "reportAll",
+    "self._wn.sim_time % self._report_timestep == 0": "onGrid",
+    "len(results.time) > 0 and int(self._wn.sim_time) == results.time[-1]": "alreadySolved",
+    "int(self._wn.sim_time) != self._wn.sim_time": "nonIntegral",
+    "self._wn.sim_time > self._wn.options.time.duration": "pastDuration",
+}
+_RAISES = [("did not converge", "noConv"), ("Exceeded maximum number of trials", "trials"),
+           ("already solved", "alreadySolved"), ("smaller than 1 second", "subSecond")]
+
+
+def _canon(src, mode):
+    import ast
+
+    return ast.dump(ast.parse(src, mode=mode).body if mode == "eval" else ast.parse(src).body[0])
+
+
+def shape_from_source(path):
+    """read `WNTRSimulator.run_sim` with `ast` and return (fields dict, Lean text of the body); BrokenTie on anything unknown"""
+    import ast
+
+    tree = ast.parse(open(path).read())
+    fn = None
+    for node in ast.walk(tree):
+        if isinstance(node, ast.ClassDef) and node.name == "WNTRSimulator":
+            for b in node.body:
+                if isinstance(b, ast.FunctionDef) and b.name == "run_sim":
+                    fn = b
+    if fn is None:
+        raise vlib.BrokenTie("WNTRSimulator.run_sim not found in %s" % path)
+    world = {_canon(k, "exec"): v for k, v in _WORLD_CALLS.items()}
+    acts = {_canon(k, "exec"): v for k, v in _ACTS.items()}
+    conds = {_canon(k, "eval"): v for k, v in _CONDS.items()}
+    adv = [_canon(k, "exec") for k in _ADVANCE]
+
+    def ignorable(st):
+        if isinstance(st, ast.Expr) and isinstance(st.value, ast.Constant) and isinstance(st.value.value, str):
+            return True  # a docstring-like string statement
+        if isinstance(st, ast.Expr) and isinstance(st.value, ast.Call):
+            f = ast.unparse(st.value.func)
+            if f.startswith("logger.") or f == "diagnostics.run":
+                return True
+        if isinstance(st, ast.If) and ast.unparse(st.test).startswith("logger.getEffectiveLevel()"):
+            return all(ignorable(x) or isinstance(x, ast.For) and all(ignorable(y) for y in x.body) for x in st.body) and not st.orelse
+        return False
+
+    def tr_block(stmts, indent):
+        out = []
+        i = 0
+        while i < len(stmts):
+            st = stmts[i]
+            if ignorable(st):
+                i += 1
+                continue
+            if [ast.dump(x) for x in stmts[i:i + 3]] == adv:
+                out.append(".act .advance")
+                i += 3
+                continue
+            out.append(tr_stmt(st, indent))
+            i += 1
+        if not out:
+            return ".skip"
+        if len(out) == 1:
+            return out[0]
+        pad = "  " * (indent + 1)
+        return "block [\n" + ",\n".join(pad + o for o in out) + "]"
+
+    def paren(t):
+        return t if t.startswith(".") and " " not in t else "(" + t + ")"
+
+    def tr_stmt(st, indent):
+        d = ast.dump(st)
+        if d in world:
+            return ".act (.world .%s)" % world[d]
+        if d in acts:
+            return ".act %s" % (acts[d] if acts[d].startswith("(") else "." + acts[d])
+        if isinstance(st, ast.Break):
+            return ".brk"
+        if isinstance(st, ast.Continue):
+            return ".cont"
+        if isinstance(st, ast.Raise):
+            src = ast.unparse(st)
+            if not src.startswith("raise RuntimeError("):
+                raise vlib.BrokenTie("run_sim loop raises something else than RuntimeError: " + src[:120])
+            for needle, name in _RAISES:
+                if needle in src:
+                    return ".raise .%s" % name
+            raise vlib.BrokenTie("unknown RuntimeError in the run_sim loop: " + src[:120])
+        if isinstance(st, ast.Expr) and isinstance(st.value, ast.Call) and ast.unparse(st.value.func) == "warnings.warn":
+            src = ast.unparse(st)
+            if "did not converge" in src:
+                return ".act .warnNoConv"
+            if "Exceeded maximum number of trials" in src:
+                return ".act .warnTrials"
+            raise vlib.BrokenTie("unknown warning in the run_sim loop: " + src[:120])
+        if isinstance(st, ast.If):
+            c = ast.dump(st.test)
+            if c not in conds:
+                raise vlib.BrokenTie("unknown condition in the run_sim loop: `%s` (line %d)" % (ast.unparse(st.test), st.lineno))
+            return ".ite .%s %s %s" % (conds[c], paren(tr_block(st.body, indent + 1)), paren(tr_block(st.orelse, indent + 1)))
+        raise vlib.BrokenTie("unrecognised statement in the run_sim loop (line %d): %s" % (st.lineno, ast.unparse(st)[:160]))
+
+    loops = [(i, st) for i, st in enumerate(fn.body) if isinstance(st, ast.While)]
+    if len(loops) != 1 or ast.unparse(loops[0][1].test) != "True" or loops[0][1].orelse:
+        raise vlib.BrokenTie("run_sim no longer has exactly one `while True:` loop at its top level")
+    li, loop = loops[0]
+    pre, post = fn.body[:li], fn.body[li + 1:]
+    fields = {"trialInit": None, "resolveInit": None, "earlyReturn": False, "returnsResults": False}
+    guard = _canon("not first_step and self._wn.sim_time > self._wn.options.time.duration", "eval")
+    first_a = _canon("if self._wn.sim_time == 0:\n    first_step = True\nelse:\n    first_step = False", "exec")
+    seen_first = seen_prev = False
+    for st in pre:
+        src = ast.unparse(st)
+        if isinstance(st, ast.Assign) and src.startswith("trial = "):
+            fields["trialInit"] = int(ast.literal_eval(st.value))
+        elif isinstance(st, ast.Assign) and src.startswith("resolve = "):
+            fields["resolveInit"] = bool(ast.literal_eval(st.value))
+        elif ast.dump(st) == first_a:
+            seen_first = True
+        elif isinstance(st, ast.If) and ast.unparse(st.test) == "first_step" and "self._wn._prev_sim_time = -1" in src:
+            seen_prev = True
+        elif isinstance(st, ast.If) and ast.dump(st.test) == guard:
+            body = [ast.unparse(x) for x in st.body]
+            if body == ["wntr.sim.hydraulics.get_results(self._wn, results, node_res, link_res)", "return results"] and not st.orelse:
+                fields["earlyReturn"] = True
+            else:
+                raise vlib.BrokenTie("the early-return guard of run_sim does something else: " + "; ".join(body)[:200])
+    if not (seen_first and seen_prev) or fields["trialInit"] is None or fields["resolveInit"] is None:
+        raise vlib.BrokenTie("run_sim's initialisation of first_step / _prev_sim_time / trial / resolve is not recognised")
+    if [ast.unparse(x) for x in post] == ["wntr.sim.hydraulics.get_results(self._wn, results, node_res, link_res)", "return results"]:
+        fields["returnsResults"] = True
+    return fields, tr_block(loop.body, 0)
+
+
+def gen_shape_lean(fields, body):
+    b = lambda x: "true" if x else "false"
+    return "\n".join([
+        "-- GENERATED by harness/props/c16.py from wntr/sim/core.py (Python ast of WNTRSimulator.run_sim). Do not edit.",
+        "import WntrModel.Model.RunLoop",
+        "namespace Wntr.RunLoop.Gen",
+        "open Wntr.RunLoop",
+        "",
+        "/-- the body of `while True:` in `run_sim`, statement by statement (logging and diagnostics dropped) -/",
+        "def body : Stmt := " + body,
+        "",
+        "def shape : Shape :=",
+        "  { trialInit := %d, resolveInit := %s, earlyReturn := %s, returnsResults := %s, body := body }"
+        % (fields["trialInit"], b(fields["resolveInit"]), b(fields["earlyReturn"]), b(fields["returnsResults"])),
+        "",
+        "end Wntr.RunLoop.Gen",
+        "",
+    ])
+
+
 # ----------------------------------------------------------------------------- the property oracle on the implementation
 
 
@@ -539,7 +733,9 @@ class C16(Check):
     ]
 
     def translate(self, ctx):
-        pass
+        fields, body = shape_from_source(os.path.join(vlib.REPO, "wntr", "sim", "core.py"))
+        ctx.cov["shape_statements"] = body.count(".act") + body.count(".ite") + body.count(".raise") + body.count(".brk") + body.count(".cont")
+        vlib.write_if_changed(os.path.join(vlib.GEN, "RunLoopShape.lean"), gen_shape_lean(fields, body))
 
     # -- one group of cases for a spec ------------------------------------------------------
     def cases_for(self, ctx, spec, exhaustive):
